@@ -246,6 +246,7 @@ class Prog:
             "evidence_neg": any(not v for _, v in self.evidence()),
             "evidence_derived": any((a[0], len(a[1])) in heads_derived for a, _ in self.evidence()),
             "neg_pred_cycle": any(neg and (b == h or reaches(b, h)) for h, b, neg in edges),
+            "repeated_var_call": any(len(atom_vars(l[1])) != len(set(atom_vars(l[1]))) for s in cl for l in s[2]),
         }
         return f
 
@@ -437,11 +438,53 @@ def _gen_fo(rng):
             ps = _ad_probs(rng, 2)
             stmts.append(("ad", [(ps[0], atom("w")), (ps[1], atom("z", V(0)))], [(True, atom("e", V(0), V(1)))]))
     # --- derived predicates
-    templates = ["path", "mutual", "generic", "generic", "generic", "adrec", "neg"]
+    templates = ["path", "mutual", "generic", "generic", "generic", "adrec", "neg", "repvar", "repvar"]
     rng.shuffle(templates)
     gid = 0
+    forced_queries = []
     for tpl in templates[:rng.randint(1, 4)]:
-        if tpl == "path" and have_e:
+        if tpl == "repvar":
+            # one arity-2 predicate called with a repeated variable (pr(X,X)), with distinct variables (pr(X,Y)) and
+            # partially ground (pr(a,Y)), in random textual order: the calls must not share a table entry
+            if "lp" in sig.preds:
+                continue
+            if "pe" in sig.preds and rng.random() < 0.3:
+                src = "pe"
+            else:
+                src = "pr"
+                sig.add("pr", 2, 0)
+                chosen = [(rng.choice(consts),) * 2]
+                others = [(x, y) for x in consts for y in consts if x != y]
+                chosen += rng.sample(others, rng.randint(1, min(3, len(others))))
+                if rng.random() < 0.3:
+                    d2 = rng.choice(consts)
+                    if (d2, d2) not in chosen:
+                        chosen.append((d2, d2))
+                rng.shuffle(chosen)
+                for x, y in chosen:
+                    stmts.append(("ad", [(_prob(rng), atom("pr", C(x), C(y)))], []))
+            c0 = rng.choice(consts)
+            shapes = {
+                "lp": ("rule", atom("lp"), [(True, atom(src, V(0), V(0)))]),
+                "lk": ("rule", atom("lk"), [(True, atom(src, V(0), V(1)))]),
+                "hf": ("rule", atom("hf", V(0)), [(True, atom(src, V(0), C(c0)) if rng.random() < 0.5 else atom(src, C(c0), V(0)))]),
+                "bo": ("rule", atom("bo"), rng.choice([
+                    [(True, atom(src, V(0), V(0))), (True, atom(src, V(1), V(2)))],
+                    [(True, atom(src, V(1), V(2))), (True, atom(src, V(0), V(0)))]])),
+                "lpx": ("rule", atom("lpx", V(0)), [(True, atom(src, V(0), V(0)))]),
+            }
+            names = ["lp", "lk"] + rng.sample(["hf", "bo", "lpx"], rng.randint(0, 3))
+            rng.shuffle(names)
+            for nm in names:
+                sig.add(nm, len(shapes[nm][1][1]), 1)
+                stmts.append(shapes[nm])
+            qs = [atom(nm, *[V(i) for i in range(len(shapes[nm][1][1]))]) for nm in names]
+            if rng.random() < 0.6:
+                qs += rng.sample([atom(src, V(0), V(0)), atom(src, V(0), V(1)), atom(src, C(c0), V(0)), atom(src, V(0), C(c0))],
+                                 rng.randint(1, 3))
+            rng.shuffle(qs)
+            forced_queries += qs[:rng.randint(2, 4)]
+        elif tpl == "path" and have_e:
             edge = "pe" if "pe" in sig.preds and rng.random() < 0.7 else "e"
             sig.add("path", 2, 1)
             stmts.append(("rule", atom("path", V(0), V(1)), [(True, atom(edge, V(0), V(1)))]))
@@ -500,8 +543,9 @@ def _gen_fo(rng):
                         body.insert(0, (True, atom("n", V(v))))
                         bound.add(v)
                 stmts.append(("rule", head, body))
+    stmts += [("query", q) for q in forced_queries]
     prog = Prog(_renumber_all(stmts), {"mode": "fo"})
-    _add_queries_evidence(rng, prog)
+    _add_queries_evidence(rng, prog, few=bool(forced_queries))
     return prog
 
 
@@ -535,7 +579,7 @@ def _renumber_all(stmts):
     return [_renumber(s) for s in stmts]
 
 
-def _add_queries_evidence(rng, prog, names_hint=None):
+def _add_queries_evidence(rng, prog, names_hint=None, few=False):
     gcs, pt = possibly_true(prog)
     defined = {}
     for s in prog.clauses():
@@ -554,7 +598,7 @@ def _add_queries_evidence(rng, prog, names_hint=None):
         p, ar = rng.choice(sorted(defined))
         return (p, tuple(C(rng.choice(consts)) for _ in range(ar)))
     stmts = list(prog.stmts)
-    nq = rng.choice([1, 1, 2, 2, 3])
+    nq = rng.choice([0, 0, 1]) if few else rng.choice([1, 1, 2, 2, 3])
     for _ in range(nq):
         r = rng.random()
         if r < 0.55 and ptl:
@@ -629,7 +673,8 @@ def gen_negcycle(rng):
     loops = []
     for g in range(rng.choice([1, 1, 2])):
         p, q, r = atom("lp%d" % g), atom("lq%d" % g), atom("lr%d" % g)
-        shape = rng.choice(["even", "odd", "three", "viapos", "ad", "evenfact", "twovalued", "fo_win"])
+        shape = rng.choice(["even", "odd", "three", "viapos", "ad", "evenfact", "twovalued", "fo_win",
+                            "possub", "possub", "possub_long", "possub_inner"])
         if shape == "even":
             stmts += [("rule", p, guard() + [(False, q)]), ("rule", q, guard() + [(False, p)])]
         elif shape == "odd":
@@ -643,6 +688,31 @@ def gen_negcycle(rng):
             stmts += [("ad", [(ps[0], p), (ps[1], r)], [(False, q)]), ("rule", q, guard() + [(False, p)])]
         elif shape == "evenfact":
             stmts += [("rule", p, [(False, q)]), ("rule", q, [(False, p)]), ("rule", p, [])]
+        elif shape in ("possub", "possub_long", "possub_inner"):
+            # a POSITIVE sub-cycle (q <-> r [<-> s]) sits below the negation; the negative loop back to p is only
+            # closed from inside that sub-cycle:  p :- \\+q.  q :- r.  r :- q.  r :- p, b.
+            s_ = atom("ls%d" % g)
+            ga, gb = atom("la%d" % g), atom("lb%d" % g)
+            stmts.append(("ad", [(_prob(rng), gb)], []))
+            back = [(True, p), (True, gb)] if rng.random() < 0.7 else [(True, gb), (True, p)]
+            if rng.random() < 0.25:
+                back = [(True, p)]
+            stmts.append(("rule", p, guard() + [(False, q)]))
+            if rng.random() < 0.6:
+                stmts.append(("ad", [(_prob(rng), ga)], []))
+                stmts.append(("rule", p, [(True, ga)]))
+            if shape == "possub":
+                stmts += [("rule", q, [(True, r)]), ("rule", r, [(True, q)]), ("rule", r, back)]
+            elif shape == "possub_long":
+                stmts += [("rule", q, [(True, r)]), ("rule", r, [(True, s_)]), ("rule", s_, [(True, q)]),
+                          ("rule", rng.choice([r, s_]), back)]
+            else:
+                # the loop back to p hangs off the first atom of the sub-cycle, which also has an exit
+                stmts += [("rule", q, [(True, r)]), ("rule", r, [(True, q)]), ("rule", q, back)]
+                if rng.random() < 0.5:
+                    stmts.append(("rule", r, guard() or [(True, gb)]))
+            # enter the loop from different atoms
+            p = rng.choice([p, p, p, q, r])
         elif shape == "twovalued":
             # p depends negatively on itself only through a body that is false in every world
             x = rng.choice(ground_atoms) if ground_atoms else atom("lx%d" % g)
